@@ -967,6 +967,13 @@ static void archiveLeaves(Archiver& arc, std::vector<LeafSlot>* leaves)
     for (LeafSlot& l : *leaves) if (!l.byListener) g_world->doLeaf(arc, l);
 }
 
+static std::string msgOf(const char* w)
+{
+    if (!w) return " |msg=NULL";
+    const std::string t(w);          // (reads the text to its end)
+    return " |msg=" + (t.empty() ? std::string("-") : hexOf(t));
+}
+
 // an Archiver call sequence under the catch ladder; returns "ok" | "err <Kind> .." | "exc .."
 template<typename F>
 static std::string guarded(F&& f)
@@ -975,18 +982,20 @@ static std::string guarded(F&& f)
         f();
         return "ok";
     }
-    catch (ArchiveErrors::InvalidArchiveHeader&) { return "err InvalidArchiveHeader"; }
-    catch (ArchiveErrors::WrongVersion&) { return "err WrongVersion"; }
-    catch (ArchiveErrors::ReadStreamFail&) { return "err ReadStreamFail"; }
-    catch (ArchiveErrors::TypeError& e) { return "err TypeError " + hexNum(e.GetExpectedType()) + " " + hexNum(e.GetType()); }
-    catch (ArchiveErrors::InvalidClass&) { return "err InvalidClass"; }
-    catch (ArchiveErrors::ObjectClassError&) { return "err ObjectClassError"; }
-    catch (ArchiveErrors::ReadPastEndObject&) { return "err ReadPastEndObject"; }
-    catch (ArchiveErrors::NotReadEntireDataObject&) { return "err NotReadEntireDataObject"; }
-    catch (ArchiveErrors::MissingReadStream&) { return "err MissingReadStream"; }
-    catch (ArchiveErrors::MissingWriteStream&) { return "err MissingWriteStream"; }
-    catch (ArchiveErrors::WriteStreamFail&) { return "err WriteStreamFail"; }
-    catch (ArchiveErrors::ObjectInstanceFailed&) { return "err ObjectInstanceFailed"; }
+    // the REPORT of the error is part of the property: what() is called on every archive error (ASan watches it) and
+    // its text is handed to the check as "|msg=<hex>" (props/C11.py compares it with the message the source promises)
+    catch (ArchiveErrors::InvalidArchiveHeader& e) { return "err InvalidArchiveHeader" + msgOf(e.what()); }
+    catch (ArchiveErrors::WrongVersion& e) { return "err WrongVersion" + msgOf(e.what()); }
+    catch (ArchiveErrors::ReadStreamFail& e) { return "err ReadStreamFail" + msgOf(e.what()); }
+    catch (ArchiveErrors::TypeError& e) { return "err TypeError " + hexNum(e.GetExpectedType()) + " " + hexNum(e.GetType()) + msgOf(e.what()); }
+    catch (ArchiveErrors::InvalidClass& e) { return "err InvalidClass" + msgOf(e.what()); }
+    catch (ArchiveErrors::ObjectClassError& e) { return "err ObjectClassError" + msgOf(e.what()); }
+    catch (ArchiveErrors::ReadPastEndObject& e) { return "err ReadPastEndObject" + msgOf(e.what()); }
+    catch (ArchiveErrors::NotReadEntireDataObject& e) { return "err NotReadEntireDataObject" + msgOf(e.what()); }
+    catch (ArchiveErrors::MissingReadStream& e) { return "err MissingReadStream" + msgOf(e.what()); }
+    catch (ArchiveErrors::MissingWriteStream& e) { return "err MissingWriteStream" + msgOf(e.what()); }
+    catch (ArchiveErrors::WriteStreamFail& e) { return "err WriteStreamFail" + msgOf(e.what()); }
+    catch (ArchiveErrors::ObjectInstanceFailed& e) { return "err ObjectInstanceFailed" + msgOf(e.what()); }
     catch (ArchiveErrors::Base&) { return "err Base"; }
     catch (std::bad_alloc&) { return "exc bad_alloc"; }
     catch (std::exception& e) { return std::string("exc std::exception"); }
